@@ -50,15 +50,16 @@ Res(oo, vs) == [o |-> oo, v |-> vs]
 
 NewPer(start) == [start |-> start, last |-> 0, dl |-> {}]
 
-(* a request of the client for a resource it held when it sent the request, and from which x is reached in the      *)
-(* announced state, is outstanding (finding KF-W: the in-flight direct count keeps the already sent resource and     *)
-(* everything below it in state sent; the resource of a call / auth / new answer is not known before the answer)      *)
+(* a request of the client is outstanding for a resource it holds right before the drop (so the gateway has sent it) *)
+(* and from which x is reached in the announced state (finding KF-W: the in-flight direct count keeps the already    *)
+(* sent resource and everything below it in state sent; the resource of a call / auth / new answer is not known      *)
+(* before the answer)                                                                                                 *)
 RECURSIVE AnnClosure(_, _)
 AnnClosure(cl, S) ==
     LET N == S \cup UNION {UNION {Refs(e) : e \in AnnOf(o.ann, Get(o.norm, KeyOf(cl, x), KeyOf(cl, x))).cands} : x \in S}
     IN IF N = S THEN S ELSE AnnClosure(cl, N)
-PendOn(cl, x) == \E i \in DOMAIN cl.pend : (cl.pend[i].m \in {"subscribe", "get"} /\ cl.pend[i].held /\ x \in AnnClosure(cl, {cl.pend[i].rid}))
-                                             \/ cl.pend[i].m \in {"call", "auth", "new"}
+PendOn(cl, x, oldH) == \E i \in DOMAIN cl.pend : (cl.pend[i].m \in {"subscribe", "get"} /\ cl.pend[i].rid \in oldH /\ x \in AnnClosure(cl, {cl.pend[i].rid}))
+                                                   \/ cl.pend[i].m \in {"call", "auth", "new"}
 
 (* after a message: keep only retained resources; open/close holding periods *)
 Collect(cl, res2, direct2) ==
@@ -67,7 +68,7 @@ Collect(cl, res2, direct2) ==
         per2 == [r \in H2 |-> IF r \in DOMAIN cl.per /\ r \in oldH THEN cl.per[r] ELSE NewPer(l)]
     IN [cl EXCEPT !.res = RestrictTo(res2, H2), !.direct = direct2, !.exempt = cl.exempt \cap H2,
                   !.per = per2, !.stale = cl.stale \cap H2,
-                  !.dropped = [x \in {y \in oldH \ H2 : PendOn(cl, y)} |-> l] @@ [x \in DOMAIN @ \ H2 |-> @[x]]]
+                  !.dropped = [x \in {y \in oldH \ H2 : PendOn(cl, y, oldH)} |-> l] @@ [x \in DOMAIN @ \ H2 |-> @[x]]]
 
 Dangling(res2, direct2) == {r \in Held(direct2, res2) : r \notin DOMAIN res2}
 
@@ -75,10 +76,12 @@ Dangling(res2, direct2) == {r \in Held(direct2, res2) : r \notin DOMAIN res2}
 (* now answered was outstanding, and the gateway considers them sent.          *)
 ByGet(cl, d, reqL) == \A x \in d : Get(cl.gotByGet, x, 0) > reqL
 
+(* (a drop is recorded only while a request that keeps the resource sent is outstanding - PendOn - and forgotten *)
+(* when the client holds the resource again; the request now answered may have been sent after the drop)          *)
 (* Finding KF-W: the client dropped these resources (last reference removed *)
 (* by an event) while the request now answered was outstanding; the request's *)
 (* direct count, taken at request time, kept them in state sent.              *)
-ByDrop(cl, d, reqL) == \A x \in d : Get(cl.dropped, x, 0) > reqL
+ByDrop(cl, d, reqL) == \A x \in d : Get(cl.dropped, x, 0) > 0
 
 KfOf(cl, d, reqL) ==
     IF cl.taintU THEN "KF-U"
@@ -656,9 +659,13 @@ C08Viol(c, q) ==
                    IF rid \in DOMAIN cl.dispW \/ rid \in cl.hUnsub THEN "KF-H" ELSE "")}
         : rid \in rids }
 
-C03EndViol(c) ==
+C03EndViol(c, q) ==
     LET cl == o.conns[c]
         H == Held(cl.direct, cl.res)
+        snap == Get(q.subs, c, <<>>)
+        \* finding KF-H: an unsubscribe was answered against an in-flight count, so the client believes in a direct
+        \* subscription the gateway no longer has; what it holds through that root is no longer served
+        offH == \E r \in Roots(cl.direct) : (r \in DOMAIN cl.dispW \/ r \in cl.hUnsub) /\ Get(cl.nsub, r, 0) # (IF r \in DOMAIN snap THEN snap[r].direct ELSE 0)
     IN UNION {
         LET p == cl.per[rid]
             n == NameOf(cl, rid)
@@ -666,7 +673,7 @@ C03EndViol(c) ==
             lo == IF p.last > 0 THEN p.last ELSE 0
             missing == {h.seq : h \in {x \in after : x.seq > lo}}
         IN IF QueryOf(cl, rid) # "" \/ rid \in cl.exempt \/ cl.res[rid].k = "e" \/ missing = {} THEN {}
-           ELSE {V("C03", "client " \o c \o " holds " \o rid \o " but never received events " \o ToString(missing), IF cl.taintU THEN "KF-U" ELSE IF cl.taintG THEN "KF-G" ELSE IF cl.taintW THEN "KF-W" ELSE "")}
+           ELSE {V("C03", "client " \o c \o " holds " \o rid \o " but never received events " \o ToString(missing), IF cl.taintU THEN "KF-U" ELSE IF cl.taintG THEN "KF-G" ELSE IF cl.taintW THEN "KF-W" ELSE IF offH /\ rid \notin DOMAIN snap THEN "KF-H" ELSE "")}
         : rid \in H \cap DOMAIN cl.per \cap DOMAIN cl.res }
 
 C06EndViol(c, q) ==
@@ -716,7 +723,7 @@ H_quiescent(r) ==
     LET live == {c \in DOMAIN o.conns : o.conns[c].alive /\ c \in SeqToSet(r.conns)}
         o1 == [o EXCEPT !.conns = [c \in DOMAIN o.conns |-> [o.conns[c] EXCEPT !.rn = (IF c \in DOMAIN r.rn THEN r.rn[c] ELSE <<>>) @@ @]]]
     IN Res([o1 EXCEPT !.resetObl = {}, !.qev = <<>>],
-           UNION {C01Viol(c, r) \cup C07Viol(c) \cup C08Viol(c, r) \cup C03EndViol(c) \cup C06EndViol(c, r) \cup C06TokViol(c, r) : c \in live}
+           UNION {C01Viol(c, r) \cup C07Viol(c) \cup C08Viol(c, r) \cup C03EndViol(c, r) \cup C06EndViol(c, r) \cup C06TokViol(c, r) : c \in live}
            \cup C09QViol(r) \cup C11Viol(r) \cup C19QViol
            \cup (IF o.hadStop THEN {} ELSE UNION {{V(e.p, "subscription " \o Short(o.sq[sp].rid) \o " of " \o o.sq[sp].c \o ": " \o e.m, "") : e \in SQTQuiescent(o.sq[sp].x)} : sp \in DOMAIN o.sq})
            \cup (IF o.hadStop THEN {} ELSE UNION {{V(e.p, "work queue of " \o Short(n) \o ": " \o e.m, "") : e \in RQQuiescent(o.rq[n])} : n \in DOMAIN o.rq})
